@@ -14,7 +14,7 @@ Import ListNotations.
 Local Open Scope Z_scope.
 
 (* comparable content types / values of the modelled domain: nat, string, options and pairs of them *)
-Inductive cty := CNat | CString | COption (c : cty) | CPair (a b : cty).
+Inductive cty := CNat | CString | COption (c : cty) | CPair (a b : cty) | COr (a b : cty).
 
 Inductive ty :=
 | TNat | TString | TAddress
@@ -22,9 +22,11 @@ Inductive ty :=
 | TPair (a b : ty) | TOption (a : ty) | TList (a : ty)
 | TBool
 | TMap (big : bool) (v : ty)
-| TLambda (a r : ty).      (* map nat v / big_map nat v: keys are nat in this model *)
+| TLambda (a r : ty)
+| TOr (a b : ty).      (* map nat v / big_map nat v: keys are nat in this model *)
 
-Inductive cval := CN (z : Z) | CS (s : bytes) | CNone (t : cty) | CSome (c : cval) | CPairV (a b : cval).
+Inductive cval := CN (z : Z) | CS (s : bytes) | CNone (t : cty) | CSome (c : cval) | CPairV (a b : cval)
+                | CLeft (c : cval) (tr : cty) | CRight (tl : cty) (c : cval).
 
 Inductive instr :=
 | TICKET | READ_TICKET | SPLIT_TICKET | JOIN_TICKETS
@@ -33,6 +35,7 @@ Inductive instr :=
 | SOME | NONE (t : ty) | IF_NONE (bt bf : list instr)
 | NIL (t : ty) | CONS | IF_CONS (bt bf : list instr) | ITER (body : list instr) | MAP (body : list instr)
 | EMPTY_MAP (big : bool) (vt : ty) | UPDATE | GET_AND_UPDATE | MEM | GET
+| LEFT (t : ty) | RIGHT (t : ty) | IF_LEFT (bt bf : list instr)
 | LAMBDA (a r : ty) (body : list instr) | EXEC | APPLY | LOOP (body : list instr) | PUSH_BOOL (b : bool)
 | PUSH_NAT (z : Z) | PUSH_STR (s : bytes)
 | SELF_IS (a : bytes).       (* harness pseudo-instruction: context.address := a *)
@@ -45,14 +48,15 @@ Inductive val :=
 | VList (t : ty) (l : list val)
 | VBool (b : bool)
 | VMap (big : bool) (vt : ty) (m : list (Z * val))
-| VLam (a r : ty) (caps : list val) (body : list instr).   (* closure: values captured by APPLY, in capture order *)
+| VLam (a r : ty) (caps : list val) (body : list instr)
+| VLeft (v : val) (tr : ty) | VRight (tl : ty) (v : val).   (* closure: values captured by APPLY, in capture order *)
 
 (* ---- equality tests ---- *)
 Fixpoint cty_eqb (a b : cty) : bool :=
   match a, b with
   | CNat, CNat | CString, CString => true
   | COption x, COption y => cty_eqb x y
-  | CPair a1 a2, CPair b1 b2 => cty_eqb a1 b1 && cty_eqb a2 b2
+  | CPair a1 a2, CPair b1 b2 | COr a1 a2, COr b1 b2 => cty_eqb a1 b1 && cty_eqb a2 b2
   | _, _ => false
   end.
 
@@ -64,7 +68,7 @@ Fixpoint ty_eqb (a b : ty) : bool :=
   | TOption x, TOption y | TList x, TList y => ty_eqb x y
   | TBool, TBool => true
   | TMap b1 x, TMap b2 y => Bool.eqb b1 b2 && ty_eqb x y
-  | TLambda a1 r1, TLambda a2 r2 => ty_eqb a1 a2 && ty_eqb r1 r2
+  | TLambda a1 r1, TLambda a2 r2 | TOr a1 r1, TOr a2 r2 => ty_eqb a1 a2 && ty_eqb r1 r2
   | _, _ => false
   end.
 
@@ -76,6 +80,7 @@ Fixpoint cval_eqb (a b : cval) : bool :=
   | CNone x, CNone y => cty_eqb x y
   | CSome x, CSome y => cval_eqb x y
   | CPairV a1 a2, CPairV b1 b2 => cval_eqb a1 b1 && cval_eqb a2 b2
+  | CLeft x t1, CLeft y t2 | CRight t1 x, CRight t2 y => cval_eqb x y && cty_eqb t1 t2
   | _, _ => false
   end.
 
@@ -113,6 +118,7 @@ Fixpoint val_eqb (a b : val) : bool :=
          | x :: r1, y :: r2 => val_eqb x y && go r1 r2
          | _, _ => false
          end) c1 c2
+  | VLeft x t1, VLeft y t2 | VRight t1 x, VRight t2 y => val_eqb x y && ty_eqb t1 t2
   | _, _ => false
   end.
 
@@ -123,18 +129,22 @@ Fixpoint cty_of (c : cval) : cty :=
   | CNone t => COption t
   | CSome x => COption (cty_of x)
   | CPairV a b => CPair (cty_of a) (cty_of b)
+  | CLeft x tr => COr (cty_of x) tr
+  | CRight tl x => COr tl (cty_of x)
   end.
 Fixpoint ty_of_cty (c : cty) : ty :=
   match c with
   | CNat => TNat | CString => TString
   | COption x => TOption (ty_of_cty x)
   | CPair a b => TPair (ty_of_cty a) (ty_of_cty b)
+  | COr a b => TOr (ty_of_cty a) (ty_of_cty b)
   end.
 Fixpoint cty_of_ty (t : ty) : option cty :=
   match t with
   | TNat => Some CNat | TString => Some CString
   | TOption x => match cty_of_ty x with Some c => Some (COption c) | None => None end
   | TPair a b => match cty_of_ty a, cty_of_ty b with Some x, Some y => Some (CPair x y) | _, _ => None end
+  | TOr a b => match cty_of_ty a, cty_of_ty b with Some x, Some y => Some (COr x y) | _, _ => None end
   | _ => None
   end.
 Fixpoint val_of_cval (c : cval) : val :=
@@ -143,6 +153,8 @@ Fixpoint val_of_cval (c : cval) : val :=
   | CNone t => VNone (ty_of_cty t)
   | CSome x => VSome (val_of_cval x)
   | CPairV a b => VPair (val_of_cval a) (val_of_cval b)
+  | CLeft x tr => VLeft (val_of_cval x) (ty_of_cty tr)
+  | CRight tl x => VRight (ty_of_cty tl) (val_of_cval x)
   end.
 
 Fixpoint type_of (v : val) : ty :=
@@ -156,13 +168,15 @@ Fixpoint type_of (v : val) : ty :=
   | VBool _ => TBool
   | VMap big vt _ => TMap big vt
   | VLam a r _ _ => TLambda a r
+  | VLeft x tr => TOr (type_of x) tr
+  | VRight tl x => TOr tl (type_of x)
   end.
 
 (* MichelsonType.is_duplicable: false for ticket, otherwise all type arguments duplicable *)
 Fixpoint duplicable (t : ty) : bool :=
   match t with
   | TTicket _ => false
-  | TPair a b => duplicable a && duplicable b
+  | TPair a b | TOr a b => duplicable a && duplicable b
   | TOption a | TList a | TMap _ a => duplicable a
   | _ => true
   end.
@@ -173,7 +187,7 @@ Fixpoint pushable (t : ty) : bool :=
   | TTicket _ => false
   | TMap true _ => false
   | TMap false a | TOption a | TList a => pushable a
-  | TPair a b => pushable a && pushable b
+  | TPair a b | TOr a b => pushable a && pushable b
   | _ => true
   end.
 
@@ -276,6 +290,8 @@ Fixpoint content_of (v : val) : option cval :=
   | VNone t => match cty_of_ty t with Some c => Some (CNone c) | None => None end
   | VSome x => match content_of x with Some c => Some (CSome c) | None => None end
   | VPair a b => match content_of a, content_of b with Some x, Some y => Some (CPairV x y) | _, _ => None end
+  | VLeft x tr => match content_of x, cty_of_ty tr with Some c, Some t => Some (CLeft c t) | _, _ => None end
+  | VRight tl x => match cty_of_ty tl, content_of x with Some t, Some c => Some (CRight t c) | _, _ => None end
   | _ => None
   end.
 
@@ -362,6 +378,10 @@ Fixpoint step (fuel : nat) (i : instr) (st : state) {struct fuel} : result state
   (* MapType.get / BigMapType.get (after fix 797a986): "use GET_AND_UPDATE instead" unless the values are duplicable *)
   | GET, VNat k :: VMap _ vt m :: s =>
       if duplicable vt then Ok (with_stk st (opt_of vt (map_get k m) :: s)) else Reject
+  | LEFT t, x :: s => Ok (with_stk st (VLeft x t :: s))
+  | RIGHT t, x :: s => Ok (with_stk st (VRight t x :: s))
+  | IF_LEFT bt bf, VLeft x _ :: s => run_with (step f) bt (with_stk st (x :: s))
+  | IF_LEFT bt bf, VRight _ x :: s => run_with (step f) bf (with_stk st (x :: s))
   | LAMBDA a r body, s => Ok (with_stk st (VLam a r [] body :: s))
   (* APPLY: the lambda's argument type is a pair, the captured value has its left type; the new code is
      { PUSH ty v ; PAIR ; old code } - the PUSH runs (and is_pushable is asserted) at EXEC time *)
@@ -403,7 +423,7 @@ Fixpoint mass (k : key) (v : val) : Z :=
   match v with
   | VTicket tk c a => if key_eqb k (tk, c) then a else 0
   | VPair a b => mass k a + mass k b
-  | VSome x => mass k x
+  | VSome x | VLeft x _ | VRight _ x => mass k x
   | VList _ l => (fix go (l : list val) : Z := match l with [] => 0 | x :: r => mass k x + go r end) l
   | VMap _ _ m => (fix go (m : list (Z * val)) : Z := match m with [] => 0 | (_, x) :: r => mass k x + go r end) m
   | _ => 0
@@ -423,7 +443,7 @@ Fixpoint tickets_pos (v : val) : bool :=
   match v with
   | VTicket _ _ a => 0 <? a
   | VPair a b => tickets_pos a && tickets_pos b
-  | VSome x => tickets_pos x
+  | VSome x | VLeft x _ | VRight _ x => tickets_pos x
   | VList _ l => (fix go (l : list val) : bool := match l with [] => true | x :: r => tickets_pos x && go r end) l
   | VMap _ _ m => (fix go (m : list (Z * val)) : bool := match m with [] => true | (_, x) :: r => tickets_pos x && go r end) m
   | _ => true
@@ -434,7 +454,7 @@ Definition stack_pos (s : list val) : bool := forallb tickets_pos s.
 Fixpoint has_ticket_instr (i : instr) : bool :=
   match i with
   | TICKET => true
-  | IF_NONE a b | IF_CONS a b =>
+  | IF_NONE a b | IF_CONS a b | IF_LEFT a b =>
       (fix go (l : list instr) : bool := match l with [] => false | x :: r => has_ticket_instr x || go r end) a ||
       (fix go (l : list instr) : bool := match l with [] => false | x :: r => has_ticket_instr x || go r end) b
   | EXEC => true       (* the code of a closure is not inspected: conservatively "may mint" *)
